@@ -351,7 +351,19 @@ impl<'a> ReadAdapter<'a> {
             0 => {
                 let buf = self.non_empty_reader_buffer_mut()?;
                 if buf.len() < N {
-                    return Err(DeserializationError::UnexpectedEOF);
+                    // A short read does not mean we have reached eof, so fall back to filling
+                    // `self.buf` until we have enough bytes or the reader is exhausted
+                    self.buffer_at_least(N)?;
+                    // SAFETY: This is guaranteed to be an in-bounds copy
+                    unsafe {
+                        core::ptr::copy_nonoverlapping(
+                            self.buffer().as_ptr(),
+                            output.as_mut_ptr(),
+                            N,
+                        );
+                    }
+                    self.pos += N;
+                    return Ok(output);
                 }
                 // SAFETY: This copy is guaranteed to be safe, as we have validated above
                 // that `buf` has at least N bytes, and `output` is defined to be exactly
@@ -402,10 +414,9 @@ impl<'a> ReadAdapter<'a> {
                     },
                     // We didn't get enough, but haven't necessarily reached eof yet, so fall back
                     // to filling `self.buf`
-                    m => {
-                        let needed = N - (m + n);
+                    _ => {
                         drop(reader_buf);
-                        self.buffer_at_least(needed)?;
+                        self.buffer_at_least(N)?;
                         debug_assert!(self.buffer().len() >= N, "expected buffer to be at least {N} bytes after call to buffer_at_least");
                         // SAFETY: This is guaranteed to be an in-bounds copy
                         unsafe {
@@ -435,12 +446,12 @@ impl<'a> ReadAdapter<'a> {
     /// Fill `self.buf` with `count` bytes
     ///
     /// This should only be called when we can't read from the reader directly
-    fn buffer_at_least(&mut self, mut count: usize) -> Result<(), DeserializationError> {
+    fn buffer_at_least(&mut self, count: usize) -> Result<(), DeserializationError> {
         // Read until we have at least `count` bytes, or until we reach end-of-file,
         // which ever comes first.
         loop {
             // If we have succesfully read `count` bytes, we're done
-            if count == 0 || self.buf.len() >= count {
+            if count == 0 || self.buffer().len() >= count {
                 break Ok(());
             }
 
@@ -456,7 +467,6 @@ impl<'a> ReadAdapter<'a> {
             let consumed = buf.len();
             self.buf.extend_from_slice(buf);
             reader.consume(consumed);
-            count = count.saturating_sub(consumed);
         }
     }
 }
@@ -513,7 +523,9 @@ impl<'a> ByteReader for ReadAdapter<'a> {
         // this will return an error if we hit EOF first
         self.buffer_at_least(len)?;
 
-        Ok(&self.buffer()[0..len])
+        let slice = &self.buf[self.pos..self.pos + len];
+        self.pos += len;
+        Ok(slice)
     }
 
     #[inline]
